@@ -231,6 +231,9 @@ def gen_cases(c, level, focus=None):
           # the same run with the designer persisted and restored into a new instance after every
           # round (the service's per-operation policy): the restore path must not read the ambient
           cases.append(dict(designer_case(d, s, spec, gen_prefix(rng, spec, k), opts), restore=True))
+          if d in ('eagle', 'quasi_random', 'grid') and not opts.get('direct'):
+            # ... and rebuilt without the seed, as the hosted policy does: the persisted state alone must carry it
+            cases.append(dict(designer_case(d, s, spec, gen_prefix(rng, spec, k), opts), restore='seedless'))
     # multi-objective history for NSGA-II
     if d == 'nsga2':
       spec2 = gen_problem(rng, n_metrics=2)
